@@ -67,10 +67,52 @@ func (g *caseGen) fields(n int, big bool) []Field {
 		}
 		fs = append(fs, f)
 	}
-	if big && g.r.Chance(1, 25) { // a block that does not fit one frame on the way out
-		n := []int{16380, 16384, 16400, 33000, 40000}[g.r.Intn(5)]
-		fs = append(fs, Field{"x-big", string(GenBytes(g.r.Intn(200), n))})
+	if big && g.r.Chance(1, 20) { // a block that does not fit one frame on the way out
+		if g.r.Chance(1, 2) {
+			n := []int{16380, 16384, 16400, 33000, 40000}[g.r.Intn(5)]
+			fs = append(fs, Field{"x-big", string(GenBytes(g.r.Intn(200), n))})
+		} else {
+			// re-encoded size within a few octets of k * MAX_FRAME_SIZE (the receiver's, default or
+			// one of the values settings() advertises): where the 5 priority / 4 promised-id
+			// octets decide how the relay has to fragment the block
+			m := []int{16384, 16384, 16384, 16385, 20000}[g.r.Intn(5)]
+			fs = sizedFields(fs, (1+g.r.Intn(2))*m-7+g.r.Intn(10), g.r.Intn(200))
+			core.Count("gen:boundary-header-block")
+		}
 		core.Count("gen:big-header-block")
+	}
+	return fs
+}
+
+func isBig(fs []Field) bool {
+	for _, f := range fs {
+		if len(f.Value) > 8000 {
+			return true
+		}
+	}
+	return false
+}
+
+// sizedFields appends an x-big field such that a fresh hpack.Encoder (what the relay uses; on a
+// running connection its dynamic table may shave a few octets off the other fields) encodes the
+// list in exactly target octets.
+func sizedFields(pre []Field, target, seed int) []Field {
+	n := target
+	var fs []Field
+	for i := 0; i < 8; i++ {
+		if n < 0 {
+			n = 0
+		}
+		fs = append(append([]Field{}, pre...), Field{"x-big", string(GenBytes(seed, n))})
+		var buf bytes.Buffer
+		enc := hpack.NewEncoder(&buf)
+		for _, f := range fs {
+			enc.WriteField(hpack.HeaderField{Name: f.Name, Value: f.Value})
+		}
+		if buf.Len() == target {
+			break
+		}
+		n += target - buf.Len()
 	}
 	return fs
 }
@@ -119,6 +161,14 @@ func (g *caseGen) message(trailersLikely bool) []frameSpec {
 	trailers := nData > 0 && g.r.Chance(1, 2) && trailersLikely
 	rst := g.r.Chance(1, 8)
 	fr = append(fr, frameSpec{kind: "hdr", fields: g.fields(1+g.r.Intn(4), true), es: nData == 0 && !rst, prio: g.prio()})
+	if isBig(fr[0].fields) && fr[0].prio == "-" && g.r.Chance(1, 2) {
+		// the priority fields share the first frame with the block: half of the blocks that must be
+		// fragmented carry them
+		fr[0].prio = fmt.Sprintf("%d/%d/%d", g.r.Intn(8), g.r.Intn(2), 1+g.r.Intn(255))
+	}
+	if isBig(fr[0].fields) && fr[0].prio != "-" {
+		core.Count("gen:big-header-block-with-priority")
+	}
 	for i := 0; i < nData; i++ {
 		p, pad := g.payload()
 		fr = append(fr, frameSpec{kind: "data", payload: p, pad: pad, es: i == nData-1 && !trailers && !rst})
@@ -303,7 +353,15 @@ func randomCase(r *core.Rand, profile string, real bool) []string {
 		if r.Chance(1, 6) { // server push on this stream
 			prom := uint32(2*i + 2)
 			g.sids[prom] = true
-			g.scripts[1][sid] = append([]frameSpec{{kind: "push", promised: prom, fields: g.fields(1+r.Intn(3), false)}}, g.scripts[1][sid]...)
+			// (a push block is unsplit on input — this x/net cannot read a continued PUSH_PROMISE — but
+			// one time in five so large that the relay has to fragment it)
+			pf := g.fields(1+r.Intn(3), false)
+			if r.Chance(1, 5) {
+				m := []int{16384, 16384, 16385, 20000}[r.Intn(4)]
+				pf = sizedFields(pf, (1+r.Intn(2))*m-7+r.Intn(10), r.Intn(200))
+				core.Count("gen:big-push-promise")
+			}
+			g.scripts[1][sid] = append([]frameSpec{{kind: "push", promised: prom, fields: pf}}, g.scripts[1][sid]...)
 			g.scripts[1][prom] = g.message(false)
 			core.Count("gen:push-promise")
 		}
@@ -418,6 +476,67 @@ func cutCases(emit func([]string)) {
 	core.Count("gen:exhaustive-cut-cases")
 }
 
+// boundaryCases: one header block per case whose re-encoded size is exactly k*M+delta for the
+// receiver's MAX_FRAME_SIZE M (the default and one raised by SETTINGS), as HEADERS with and without
+// priority (split on input into CONTINUATIONs that respect the smallest legal frame size) and as
+// PUSH_PROMISE (unsplit on input, see send). The receiving endpoint enforces M.
+func boundaryCases(tier string, emit func([]string)) {
+	type dk struct{ k, delta int }
+	var pts []dk
+	if tier == "thorough" {
+		for k := 1; k <= 3; k++ {
+			for d := -8; d <= 2; d++ {
+				pts = append(pts, dk{k, d})
+			}
+		}
+	} else {
+		for _, d := range []int{-6, -5, -4, -3, -1, 0, 1} {
+			pts = append(pts, dk{1, d})
+		}
+		for _, d := range []int{-5, -4, 0} {
+			pts = append(pts, dk{2, d})
+		}
+	}
+	for mi, m := range []int{16384, 20000} {
+		for _, pt := range pts {
+			if tier != "thorough" && mi > 0 && pt.k > 1 {
+				continue
+			}
+			for kind := 0; kind < 3; kind++ { // 0 HEADERS with priority, 1 without, 2 PUSH_PROMISE
+				g := &caseGen{r: core.NewRand(1), profile: "C08", sids: map[uint32]bool{1: true}}
+				for e := 0; e < 2; e++ {
+					g.scripts[e] = map[uint32][]frameSpec{}
+				}
+				fs := sizedFields([]Field{{":method", "GET"}}, pt.k*m+pt.delta, pt.k+kind)
+				snd := 0
+				if kind == 2 {
+					snd = 1
+				}
+				if m != 16384 {
+					g.emit("settings %s 5=%d", epName(1-snd), m)
+				}
+				if kind == 2 {
+					g.scripts[1][1] = []frameSpec{{kind: "push", fields: fs, promised: 2}}
+				} else {
+					prio := "-"
+					if kind == 0 {
+						prio = "0/0/15"
+					}
+					g.scripts[0][1] = []frameSpec{{kind: "hdr", fields: fs, es: pt.delta%2 == 0, prio: prio}}
+					for c := 16000; c < pt.k*m+pt.delta; c += 16000 {
+						g.exhaust = append(g.exhaust, c)
+					}
+				}
+				g.send(snd, 1)
+				g.ops = append(g.ops, g.pend[snd]...)
+				g.emit("drained")
+				emit(g.ops)
+				core.Count("gen:boundary-cases")
+			}
+		}
+	}
+}
+
 // malformedCase: a few valid frames, then one malformed frame (oracle-only: no panic, no hang).
 func malformedCase(r *core.Rand) []string {
 	ops := []string{"headers c 1 0 1 - " + BytesTok(LitEncode([]Field{{":method", "GET"}}))}
@@ -449,6 +568,7 @@ func Gen(profile string, r *core.Rand, tier string, emit func([]string)) {
 			cutCases(emit)
 		}
 	}
+	boundaryCases(tier, emit)
 	for i := 0; i < n; i++ {
 		real := profile == "C08" && i%4 == 3
 		emit(randomCase(r.Fork(), profile, real))
